@@ -59,12 +59,25 @@ func (l *LamportClock) Merge(clock iface.IPFSLogLamportClock) iface.IPFSLogLampo
 // Compare calculate the "distance" based on the clock, ie. lower or greater.
 func (l *LamportClock) Compare(b iface.IPFSLogLamportClock) int {
 	// TODO: Make it a Golang slice-compatible sort function
-	dist := l.Time - b.GetTime()
+	bTime := b.GetTime()
 
 	// If the sequence number is the same (concurrent events),
 	// return the comparison between IDs
-	if dist == 0 {
+	if l.Time == bTime {
 		return bytes.Compare(l.ID, b.GetID())
+	}
+
+	dist := l.Time - bTime
+
+	// The subtraction wraps around when the times have opposite signs and are
+	// far apart (times decoded from foreign blocks may be negative): keep the
+	// sign of the comparison in that case (with a value that can be negated)
+	if l.Time < bTime && dist >= 0 {
+		return -math.MaxInt
+	}
+
+	if l.Time > bTime && dist <= 0 {
+		return math.MaxInt
 	}
 
 	return dist
